@@ -9,7 +9,7 @@ import os, sys, io, json
 sys.path.insert(0, os.path.join(os.path.dirname(os.path.abspath(__file__)), ".."))
 from common.checklib import main_guard
 from gen import model as M, values as V, refcodec as R
-from streamworld import sw, pynode as P, runner
+from streamworld import sw, pynode as P, cppnode as C, runner
 
 PROP = "C16"
 
@@ -113,6 +113,87 @@ def check_binary(model, proto, rng, quick, stats, viols, seedinfo):
             return
 
 
+def ndjson_lines_to_flat(codec, proto, ns, text):
+    """Values carried by the complete NDJSON lines after the header: [(step index, neutral value)]."""
+    import json as _json
+    names = {name: (i, M.qualify(t, ns)) for i, (name, t, _) in enumerate(proto.steps)}
+    out = []
+    lines = text.split("\n")
+    for line in lines[1:]:
+        if not line.strip():
+            continue
+        try:
+            d = _json.loads(line)
+        except ValueError:
+            break                      # an incomplete last line is not a delivered value
+        (name, j), = d.items()
+        i, qt = names[name]
+        out.append((i, codec.from_json(qt, j)))
+    return out
+
+
+def check_cpp(model, cm, proto, rng, quick, stats, viols, seedinfo):
+    """C++ reader: relay binary -> NDJSON with CopyTo buffer size 1; the NDJSON lines emitted before the
+    exception are the values it delivered."""
+    env, ns = model.env, model.pkg.namespace
+    codec = R.Codec(env)
+    schema = model.schema(proto)
+    hdr_end = 9 + len(_uv(len(schema.encode()))) + len(schema.encode())
+    big = rng.chance(0.4)
+    pad_len = None
+    if big and proto.steps[0][0] == sw.PAD_STEP:
+        pad_len = rng.choice([sw.BUF - hdr_end - 3 - rng.randint(0, 40), sw.BUF - hdr_end - 3, 2 * sw.BUF - hdr_end - 3 - rng.randint(0, 20)])
+    vals = sw.gen_values(env, ns, proto, rng, finite=True, pad_len=pad_len, items=(0, 5))
+    parts = sw.gen_partitions(proto, vals, rng)
+    data = codec.encode_stream(proto, ns, schema, vals, parts)
+    marks = set(codec.marks)
+    flat = sw.flat_values(proto, vals)
+    nb = cm.copyto[proto.name]
+    cuts = cut_positions(len(data), marks, hdr_end, rng, quick, big)
+    # exact multiples of the staging buffer size, if the stream is that long, are always included
+    cuts = sorted(set(cuts) | {k for k in (sw.BUF, 2 * sw.BUF) if k < len(data)})
+    runs = [{"proto": proto.name, "op": "relay", "in_fmt": "binary", "out_fmt": "ndjson", "input": 0, "batch": [1] * nb}]
+    for p in cuts:
+        runs.append({"proto": proto.name, "op": "relay", "in_fmt": "binary", "out_fmt": "ndjson", "input": 0, "batch": [1] * nb, "cut": p,
+                     "chunk_mode": rng.choice([0, 0, 3, 2] if len(data) < 5000 else [0, 3]), "chunk_seed": rng.randint(1, 1 << 30)})
+    results = cm.run_plan([data], runs, timeout=240)
+    stats["runs"] = stats.get("runs", 0) + len(runs)
+    base = results[0]
+    ok = base is not None and not base.get("crashed") and base.get("ok")
+    if ok:
+        try:
+            ok = not sw.flat_equal(env, ns, proto, flat, ndjson_lines_to_flat(codec, proto, ns, bytes.fromhex(base["out"]).decode("utf-8")), True)
+        except Exception:
+            ok = False
+    if not ok:
+        stats["cpp_baseline_unreadable(skipped)"] = stats.get("cpp_baseline_unreadable(skipped)", 0) + 1
+        return
+    stats["cpp_streams"] = stats.get("cpp_streams", 0) + 1
+    stats["cpp_streams_gt_64k"] = stats.get("cpp_streams_gt_64k", 0) + (1 if len(data) > sw.BUF else 0)
+    for p, res in zip(cuts, results[1:]):
+        cls = pos_class(p, marks, hdr_end)
+        stats["cpp_" + cls] = stats.get("cpp_" + cls, 0) + 1
+        stats["cpp_cuts"] = stats.get("cpp_cuts", 0) + 1
+        if res is None:
+            continue
+        d = _doc(model, proto, vals, parts, p, "whole", "binary", seedinfo)
+        d["lang"] = "cpp"
+        if res.get("crashed"):
+            viols.append(({"class": "reader_hangs_on_truncated_stream" if res.get("hang") else "reader_crashed_on_truncated_stream", "lang": "cpp", "format": "binary", "position_class": cls}, d))
+            return
+        if res["ok"]:
+            viols.append(({"class": "truncation_not_reported", "lang": "cpp", "format": "binary", "position_class": cls}, d))
+            return
+        try:
+            got = ndjson_lines_to_flat(codec, proto, ns, bytes.fromhex(res["out"]).decode("utf-8", "replace"))
+            why = sw.is_prefix(env, ns, proto, flat, got, True)
+        except Exception as e:  # noqa
+            why = "values emitted before the error are not decodable: %r" % (e,)
+        if why:
+            viols.append(({"class": "wrong_value_before_error", "lang": "cpp", "format": "binary", "position_class": cls, "detail": why[:200]}, d))
+            return
+
+
 def check_ndjson(model, proto, rng, quick, stats, viols, seedinfo):
     env, ns = model.env, model.pkg.namespace
     codec = R.Codec(env)
@@ -186,16 +267,28 @@ def _doc(model, proto, vals, parts, p, mode, fmt, seedinfo):
 def model_task(task, ybin, root):
     seed, i, quick = task["seed"], task["i"], task["tier"] == "quick"
     rng = M.derive(seed, "c16", i)
-    pkg = sw.stream_package(rng.next())
-    model = P.PyModel(pkg, ybin, root)
-    stats, viols, cases, samples = {}, [], [], []
+    want_cpp = (i % 6 == 0) if quick else (i % 2 == 0)
+    cfg = M.GenConfig.swarm(rng.fork("cfg"))
+    if want_cpp:
+        cfg.time_types = False        # delivered values are observed as NDJSON; C++ formats dates through the stubbed date.h
+    pkg = sw.stream_package(rng.next(), cfg=cfg, for_cpp=want_cpp)
+    model = P.PyModel(pkg, ybin, root, want_cpp=want_cpp, cpp_opts=C.CPP_OPTS)
+    stats, viols, cases, samples = {"models_with_cpp": 1 if want_cpp else 0}, [], [], []
     try:
+        cm = None
+        if want_cpp:
+            try:
+                cm = C.CppModel(model.dir)
+            except C.GeneratedCodeDoesNotCompile:
+                stats["generated_cpp_did_not_compile(discarded)"] = 1
         for proto in model.protocols():
             for rep in range(2 if quick else 6):
                 r = rng.fork(proto.name, rep)
                 before = stats.get("runs", 0)
                 check_binary(model, proto, r, quick, stats, viols, task)
                 check_ndjson(model, proto, r.fork("nd"), quick, stats, viols, task)
+                if cm is not None:
+                    check_cpp(model, cm, proto, r.fork("cpp"), quick, stats, viols, task)
                 cases.append((["c16", i, proto.name, rep], stats.get("runs", 0) - before > 2))
         samples.append({"model_index": i, "protocols": [M.render_def(p, None, 0) for p in model.protocols()][:1], "runs": stats.get("runs", 0)})
     finally:
@@ -203,7 +296,7 @@ def model_task(task, ybin, root):
     # keep at most one violation per class per model
     seen, out = set(), []
     for rec, doc in viols:
-        k = (rec["class"], rec.get("format"))
+        k = (rec["class"], rec.get("format"), rec.get("lang"))
         if k not in seen:
             seen.add(k)
             out.append((rec, doc))
@@ -212,7 +305,7 @@ def model_task(task, ybin, root):
 
 def replay_doc(doc, ybin, root):
     pkg = sw.unpack_pkg(doc["pkg"])
-    model = P.PyModel(pkg, ybin, root)
+    model = P.PyModel(pkg, ybin, root, want_cpp=doc.get("lang") == "cpp", cpp_opts=C.CPP_OPTS)
     try:
         proto = [p for p in model.protocols() if p.name == doc["protocol"]][0]
         env, ns = model.env, pkg.namespace
@@ -220,6 +313,17 @@ def replay_doc(doc, ybin, root):
         vals, parts = sw.unpack(doc["values"]), sw.unpack(doc["partitions"])
         flat = sw.flat_values(proto, vals)
         cls = doc["violation"]["class"]
+        if doc.get("lang") == "cpp":
+            cm = C.CppModel(model.dir)
+            data = codec.encode_stream(proto, ns, model.schema(proto), vals, parts)
+            res = cm.run_plan([data], [{"proto": proto.name, "op": "relay", "in_fmt": "binary", "out_fmt": "ndjson", "input": 0, "batch": [1] * cm.copyto[proto.name], "cut": doc["cut"]}])[0]
+            if res.get("crashed"):
+                return cls.startswith("reader_"), res.get("stderr", "")[-300:]
+            if res["ok"]:
+                return cls == "truncation_not_reported", "relay completed without error on the truncated stream"
+            got = ndjson_lines_to_flat(codec, proto, ns, bytes.fromhex(res["out"]).decode("utf-8", "replace"))
+            why = sw.is_prefix(env, ns, proto, flat, got, True)
+            return bool(why) and cls == "wrong_value_before_error", why or "error reported: %s" % res.get("what")
         if doc["format"] == "binary":
             data = codec.encode_stream(proto, ns, model.schema(proto), vals, parts)
             rng = M.derive(doc["seed"], "replay")
@@ -245,12 +349,12 @@ def main():
                      "the 65536-byte refill inside the values; NDJSON) handed to the generated reader truncated at each enumerated cut position: every position for small "
                      "streams (thorough), else every position within 2 bytes of a value boundary, within 16 bytes of k*65536, the whole fixed header, plus a seeded sample; "
                      "delivery chunking drawn per cut; non-trivial = at least 2 cut positions executed; distinct = (model, protocol, repetition)"),
-               real_code="generated Python package (binary.py, ndjson.py, protocols.py, types.py) + shipped _binary.py/_ndjson.py/yardl_types.py under numpy",
-               stubbed="none on the Python side; streams produced by the independent reference encoder",
+               real_code="generated Python package (binary.py, ndjson.py, protocols.py, types.py) + shipped _binary.py/_ndjson.py/yardl_types.py under numpy; for every 6th model (2nd in the thorough tier) the generated C++ binary reader + shipped coded_stream.h/serializers.h through a CopyTo relay in the harness",
+               stubbed="C++ nd-array header and date/date.h; streams produced by the independent reference encoder",
                assumptions=["the reference codec follows docs/reference/*.md except int8/uint8 as one raw byte (what every backend does; reported under C01)",
                             "an NDJSON prefix that is itself a complete document of the protocol (cut on a line boundary in a trailing stream) is a by-design finding, listed in known_findings.json"],
                replay_fn=replay_doc, quick_budget=100,
-               fault_keys=("cuts", "ndjson_cuts", "cut_in_magic", "cut_in_version", "cut_in_schema", "cut_inside_value", "cut_on_value_boundary",
+               fault_keys=("cuts", "ndjson_cuts", "cpp_cuts", "cpp_cut_at_k_times_65536", "cpp_cut_at_k_times_65536_pm1", "cpp_cut_inside_value", "cpp_cut_on_value_boundary", "cut_in_magic", "cut_in_version", "cut_in_schema", "cut_inside_value", "cut_on_value_boundary",
                            "cut_at_k_times_65536", "cut_at_k_times_65536_pm1", "ndjson_cut_on_line_boundary", "ndjson_cut_inside_line", "ndjson_cut_in_header"))
 
 
